@@ -25,8 +25,23 @@ class BestScan:
 
 def find_best_scans(w: Walker, li: LoopInfo) -> List[BestScan]:
     out = []
+    from .ir import mk_not
+
+    def orient(t, phi):
+        """sel(g, phi, X) (a `continue` / skipped path keeps the old value) is sel(not g, X, phi)."""
+        if t[0] == "sel" and t[2] == phi and t[3] != phi:
+            return ("sel", mk_not(t[1]), t[3], phi)
+        return t
+
+    def orient_all(t, phi):
+        t = orient(t, phi)
+        if t[0] == "sel" and t[3] == phi:
+            return ("sel", t[1], orient_all(t[2], phi), phi)
+        return t
+
     for name, (init, end) in li.carried.items():
         phi = ("phi", li.lid, name)
+        end = orient_all(end, phi)
         if end[0] != "sel" or end[3] != phi:
             continue
         outer = []
@@ -49,6 +64,7 @@ def find_best_scans(w: Walker, li: LoopInfo) -> List[BestScan]:
             if n2 == name:
                 continue
             phi2 = ("phi", li.lid, n2)
+            e2 = orient_all(e2, phi2)
             for g in outer:
                 if e2[0] == "sel" and e2[1] == g and e2[3] == phi2:
                     e2 = e2[2]
@@ -68,3 +84,81 @@ def position_vars(li: LoopInfo) -> Dict[str, Term]:
         if lin_eq(lin(end), {phi: 1, 1: 1}):
             out[name] = init
     return out
+
+
+@dataclass
+class OrderedScan:
+    """A scan over consecutive positions of an order: one view of `while j < n - 1 ... j += 1` (the element
+    examined is j + 1) and of `for j in range(a, n): ... break` (the element examined is j)."""
+
+    bs: BestScan
+    form: str  # 'while' | 'for'
+    pos: Term  # position examined in an iteration
+    prev: Optional[Term]  # position examined in the previous iteration (while form: j)
+    first: Optional[Term]  # first position examined
+    problems: List[Tuple[str, str]] = field(default_factory=list)  # (rule suffix, detail)
+    bound: List[Tuple[Term, bool]] = field(default_factory=list)  # (test, exact?)
+    exits: List[Term] = field(default_factory=list)  # continuation tests other than the bound
+    posname: str = ""
+
+
+def ordered_scan(w: Walker, bs: BestScan, sizes: List[Term]) -> OrderedScan:
+    """`sizes`: terms denoting the number of elements of the order scanned."""
+    from .ir import facts, mk_not
+    li = bs.loop
+    if li.kind == "while":
+        pos = position_vars(li)
+        if len(pos) != 1:
+            v = OrderedScan(bs, "while", ("undef",), None, None)
+            v.problems.append(("position", f"position variables found: {sorted(pos)}"))
+            return v
+        jname, jinit = next(iter(pos.items()))
+        J = ("phi", li.lid, jname)
+        nxt = ("bin", "+", *sorted([("const", 1), J], key=repr))
+        first = ("const", jinit[1] + 1) if jinit[0] == "const" and isinstance(jinit[1], int) else None
+        v = OrderedScan(bs, "while", nxt, J, first, posname=jname)
+        if first is None:
+            v.problems.append(("start", f"{jname} starts at {show(jinit)}"))
+        for c in conj(li.cond):
+            if c[0] == "cmp" and c[1] in ("<", "<="):
+                d = _sub(lin(c[3]), lin(c[2]))
+                hit = False
+                for n in sizes:
+                    if lin_eq(d, {n: 1, J: -1, 1: -1 if c[1] == "<" else -2}):
+                        v.bound.append((c, True))
+                        hit = True
+                        break
+                    if d is not None and J in d and n in d:
+                        v.bound.append((c, False))
+                        hit = True
+                        break
+                if hit:
+                    continue
+            v.exits.append(c)
+        return v
+    if li.kind == "for":
+        d = li.domain
+        if d is None or d[0] != "call" or d[1] != ("builtin", "range") or d[3] or not 1 <= len(d[2]) <= 3:
+            v = OrderedScan(bs, "for", ("undef",), None, None)
+            v.problems.append(("position", f"the scan domain '{show(d) if d else '?'}' is not a range of positions"))
+            return v
+        a = d[2]
+        lo, hi = (("const", 0), a[0]) if len(a) == 1 else (a[0], a[1])
+        P = ("iter", d, li.lid)
+        v = OrderedScan(bs, "for", P, None, lo, posname=show(P))
+        if len(a) == 3 and a[2] != ("const", 1):
+            v.problems.append(("position", f"the scan advances by {show(a[2])} positions per iteration"))
+        c = ("cmp", "<", P, hi)
+        v.bound.append((c, hi in sizes))
+        base = set(facts(li.guards))
+        for e in w.events:
+            if e.kind == "break" and e.loops and e.loops[-1] == li.lid:
+                own = [f for f in facts(e.guards) if f not in base]
+                if len(own) == 1:
+                    v.exits.append(mk_not(own[0]))
+                else:
+                    v.exits.append(("not", ("and", tuple(own))))
+        return v
+    v = OrderedScan(bs, li.kind, ("undef",), None, None)
+    v.problems.append(("position", f"unsupported scan loop kind {li.kind}"))
+    return v
